@@ -1,6 +1,322 @@
-import AGH.Spec.Clients
-namespace AGH.C04
+/-
+C04 — Requests map to one persistent client by fixed precedence; the registry
+stays consistent.
 
-theorem C04_stub : noSharing [] = true := rfl
+Property theorems only; the lemmas are in AGH/Lemmas/Clients*.lean.  All
+quantifiers are unbounded: every history of add / update / remove / DHCP-lease
+operations of every length, over clients with any number of addresses (IPv4,
+IPv6 with zones, IPv4-mapped), overlapping CIDRs of every length, MACs and
+ClientIDs; every lookup input.
+
+`Inv` is the consistency of the index (every entry points at a stored client
+that lists the identifier, every identifier of every stored client is indexed
+to it, UIDs unique, the sorted CIDR key list sorted / duplicate-free / equal to
+the domain of its value map).  `Refines s w` says the storage `s` implements
+the abstract registry `w` (a plain list of clients): `Inv`, same clients, same
+DHCP table.  `track`/`run` execute a history from a state.
+-/
+import AGH.Lemmas.ClientsHistory
+namespace AGH.C04
+open AGH AGH.Bytes
+open AGH.C03 (IP Prefix inCIDR)
+
+/-! ### the monitor never fires on the model -/
+
+/-- For every history and every set of probes, after every operation, the
+executable spec (`specStep`: no sharing after an accepted operation, every
+name / identifier / request resolves as the abstract registry says, the listing
+is the registry) accepts what the model shows.  This is the predicate the
+driver evaluates on the IMPLEMENTATION's observations. -/
+theorem C04_model_meets_spec (probes : List Probe) (ops : List Op) :
+    monitorRun probes Storage.empty World.empty ops = true :=
+  monitorRun_of_refines probes Refines.empty ops
+
+/-! ### consistency of the index -/
+
+/-- Every operation keeps the index consistent. -/
+theorem C04_inv_preserved (s : Storage) (h : Inv s.index) (op : Op) : Inv (step s op).1.index :=
+  step_inv h op
+
+/-- The index is consistent after every history. -/
+theorem C04_inv_reachable (ops : List Op) : Inv (run Storage.empty ops).index :=
+  run_inv Inv.empty ops
+
+/-- After any history every ClientID, address, MAC and name resolves to the
+stored client that currently lists it, or to none; never to a removed client
+(no stale entries) and never to a UID without a client. -/
+theorem C04_lookup_current_owner (ops : List Op) :
+    let s := run Storage.empty ops
+    (∀ k c, s.index.findByClientID k = .found c ↔ (c ∈ s.index.clients ∧ k ∈ c.cids)) ∧
+    (∀ k, s.index.findByClientID k = .none ↔ ∀ c ∈ s.index.clients, k ∉ c.cids) ∧
+    (∀ a c, a ∈ c.ips → c ∈ s.index.clients → s.index.findByIP a = .found c) ∧
+    (∀ m c, macOK m = true → (s.index.findByMAC m = some (.found c) ↔ (c ∈ s.index.clients ∧ m ∈ c.macs))) ∧
+    (∀ n c, s.index.findByName n = .found c ↔ (c ∈ s.index.clients ∧ c.name = n)) := by
+  intro s
+  have h : Inv s.index := run_inv Inv.empty ops
+  refine ⟨?_, ?_, ?_, ?_, ?_⟩
+  · intro k c; exact (h.deref_map h.cids k).2.1 c
+  · intro k; exact (h.deref_map h.cids k).1
+  · intro a c ha hc
+    have hm : s.index.ipToUID a = some c.uid := (h.ips a c.uid).mpr ⟨c, hc, rfl, ha⟩
+    have := (h.deref_map h.ips a).2.1 c
+    unfold Index.findByIP
+    rw [hm]
+    simp only
+    rw [← hm]
+    exact this.mpr ⟨hc, ha⟩
+  · intro m c hok
+    unfold Index.findByMAC
+    simp only [hok, if_true, Option.some.injEq]
+    exact (h.deref_map h.macs m).2.1 c
+  · intro n c; exact (h.deref_name (n := n)).2.1 c
+
+/-- The storage implements the abstract registry along every history: the
+registry being the list of clients changed only by the accepted operations.
+In particular no two clients ever share a name or an identifier, and every
+probe inside the property's domain shows exactly what the registry says. -/
+theorem C04_refines_registry (ops : List Op) :
+    let sw := track Storage.empty World.empty ops
+    sw.1 = run Storage.empty ops ∧ Refines sw.1 sw.2 ∧ noSharing sw.2.reg = true ∧
+    ∀ p, probeInScope sw.2 p = true → modelSeen sw.1 p = expected sw.2 p := by
+  intro sw
+  have hr : Refines sw.1 sw.2 := track_refines Refines.empty ops
+  exact ⟨track_fst _ _ _, hr, hr.noSharing, fun p hp => modelSeen_expected hr p hp⟩
+
+/-! ### rejected operations -/
+
+/-- An operation that is not accepted (any error, or a crash) leaves the whole
+storage unchanged — index, client list and DHCP table. -/
+theorem C04_reject_atomic (s : Storage) (op : Op) (h : (step s op).2 ≠ .ok) : (step s op).1 = s := by
+  cases op with
+  | add c => exact Storage.add_rejected s c h
+  | update n c => exact Storage.update_rejected s n c h
+  | remove n => exact Storage.remove_rejected s n h
+  | dhcpSet ip mac => exact absurd rfl h
+  | dhcpDel ip => exact absurd rfl h
+
+/-- An `Add` that would make two clients share a name or an identifier is rejected. -/
+theorem C04_clash_rejected_add (s : Storage) (h : Inv s.index) (c : Client)
+    (hclash : ∃ d ∈ s.index.clients, d.uid ≠ c.uid ∧ ∃ k, k ∈ c.idents ∧ k ∈ d.idents) :
+    (s.add c).2 ≠ .ok := by
+  intro hok
+  have : s.add c = ((s.add c).1, .ok) := by rw [← hok]
+  obtain ⟨_, _, hnc, _⟩ := Storage.add_ok h this
+  obtain ⟨d, hd, hne, k, hkc, hkd⟩ := hclash
+  cases k with
+  | name n =>
+    rw [mem_idents_name] at hkc hkd
+    exact hne (hnc.name c.name (by simp) d.uid ((h.names c.name d.uid).mpr ⟨d, hd, rfl, by simp [← hkd, hkc]⟩))
+  | cid x =>
+    rw [mem_idents_cid] at hkc hkd
+    exact hne (hnc.cids x hkc d.uid ((h.cids x d.uid).mpr ⟨d, hd, rfl, hkd⟩))
+  | ip x =>
+    rw [mem_idents_ip] at hkc hkd
+    exact hne (hnc.ips x hkc d.uid ((h.ips x d.uid).mpr ⟨d, hd, rfl, hkd⟩))
+  | subnet x =>
+    rw [mem_idents_subnet] at hkc hkd
+    exact hne (hnc.subs x hkc d.uid ((h.subs x d.uid).mpr ⟨d, hd, rfl, hkd⟩))
+  | mac x =>
+    rw [mem_idents_mac] at hkc hkd
+    exact hne (hnc.macs x hkc d.uid ((h.macs x d.uid).mpr ⟨d, hd, rfl, hkd⟩))
+
+/-- An `Update` that would make the updated client share its new name or a new
+identifier with ANOTHER client is rejected. -/
+theorem C04_clash_rejected_update (s : Storage) (h : Inv s.index) (n : Bytes) (c stored : Client)
+    (hst : s.index.findByName n = .found stored)
+    (hclash : ∃ d ∈ s.index.clients, d.uid ≠ stored.uid ∧ ∃ k, k ∈ c.idents ∧ k ∈ d.idents) :
+    (s.update n c).2 ≠ .ok := by
+  intro hok
+  have : s.update n c = ((s.update n c).1, .ok) := by rw [← hok]
+  obtain ⟨stored', hst', hname', _, hnc, _⟩ := Storage.update_ok h this
+  have hs := ((h.deref_name (n := n)).2.1 stored).mp hst
+  have : stored' = stored := by
+    have h1 := (h.names n stored'.uid).mpr ⟨stored', hst', rfl, by simp [hname']⟩
+    have h2 := (h.names n stored.uid).mpr ⟨stored, hs.1, rfl, by simp [hs.2]⟩
+    rw [h1] at h2
+    exact h.uids.eq_of_uid hst' hs.1 (Option.some.inj h2)
+  subst this
+  obtain ⟨d, hd, hne, k, hkc, hkd⟩ := hclash
+  cases k with
+  | name x =>
+    rw [mem_idents_name] at hkc hkd
+    exact hne (hnc.name c.name (by simp) d.uid ((h.names c.name d.uid).mpr ⟨d, hd, rfl, by simp [← hkd, hkc]⟩))
+  | cid x =>
+    rw [mem_idents_cid] at hkc hkd
+    exact hne (hnc.cids x hkc d.uid ((h.cids x d.uid).mpr ⟨d, hd, rfl, hkd⟩))
+  | ip x =>
+    rw [mem_idents_ip] at hkc hkd
+    exact hne (hnc.ips x hkc d.uid ((h.ips x d.uid).mpr ⟨d, hd, rfl, hkd⟩))
+  | subnet x =>
+    rw [mem_idents_subnet] at hkc hkd
+    exact hne (hnc.subs x hkc d.uid ((h.subs x d.uid).mpr ⟨d, hd, rfl, hkd⟩))
+  | mac x =>
+    rw [mem_idents_mac] at hkc hkd
+    exact hne (hnc.macs x hkc d.uid ((h.macs x d.uid).mpr ⟨d, hd, rfl, hkd⟩))
+
+/-- Conversely a well-formed `Add` that shares nothing is accepted: rejections
+are not vacuous. -/
+theorem C04_add_accepted (s : Storage) (h : Inv s.index) (c : Client) (hv : c.validate = none)
+    (hfresh : ∀ d ∈ s.index.clients, d.uid ≠ c.uid) (hmac : ∀ m ∈ c.macs, macOK m = true)
+    (hfree : ∀ d ∈ s.index.clients, ∀ k, k ∈ c.idents → k ∉ d.idents) :
+    (s.add c).2 = .ok := by
+  have key : ∀ {κ : Type} {m : FMap κ} {ids : Client → List κ} (mk : κ → Ident),
+      MapInv m s.index.clients ids → (∀ d k, mk k ∈ d.idents ↔ k ∈ ids d) →
+      ∀ ks, (∀ k ∈ ks, mk k ∈ c.idents) → FreeFor m c.uid ks := by
+    intro κ m ids mk hm hmk ks hks k hk u hu
+    obtain ⟨d, hd, _, hkd⟩ := (hm k u).mp hu
+    exact absurd ((hmk d k).mpr hkd) (hfree d hd (mk k) (hks k hk))
+  have hnc : NoClash s.index c :=
+    { name := key Ident.name h.names (by intro d k; simp) [c.name] (by intro k hk; simp at hk; simp [hk])
+      cids := key Ident.cid h.cids (by intro d k; simp) c.cids (by intro k hk; simp [hk])
+      ips := key Ident.ip h.ips (by intro d k; simp) c.ips (by intro k hk; simp [hk])
+      subs := key Ident.subnet h.subs (by intro d k; simp) c.subnets (by intro k hk; simp [hk])
+      macs := key Ident.mac h.macs (by intro d k; simp) c.macs (by intro k hk; simp [hk]) }
+  have hcl := (h.clashes_spec c).1.mpr ⟨hnc, hmac⟩
+  unfold Storage.add
+  simp [hv, Index.client_eq_none.mpr hfresh, hcl]
+
+/-- No operation crashes unless a client carries a hardware address of an
+impossible length (not 6, 8 or 20 bytes — `net.ParseMAC` never produces one). -/
+theorem C04_no_panic (s : Storage) (h : Inv s.index) (op : Op) (hp : (step s op).2 = .panic) :
+    ∃ c, (op = .add c ∨ ∃ n, op = .update n c) ∧ ∃ m ∈ c.macs, macOK m = false := by
+  cases op with
+  | add c => exact ⟨c, Or.inl rfl, Storage.add_panic h hp⟩
+  | update n c => exact ⟨c, Or.inr ⟨n, rfl⟩, Storage.update_panic h hp⟩
+  | remove n =>
+    rcases Storage.remove_res (n := n) h with h' | h' <;> simp only [step] at hp <;> rw [h'] at hp <;> cases hp
+  | dhcpSet ip mac => cases hp
+  | dhcpDel ip => cases hp
+
+/-! ### precedence -/
+
+/-- `ApplyClientFiltering` attributes a request to the owner of its ClientID,
+else of its address, else of the most specific CIDR containing it, else of the
+MAC the DHCP server leased the address to — evaluated on the abstract registry. -/
+theorem C04_precedence {s : Storage} {w : World} (h : Refines s w) (cid : Bytes) (a : IP)
+    (hlease : ∀ m, w.lease a = some m → validMAC m = true) :
+    s.resolve cid a = gotOf (attributed w.reg (w.lease a) cid a) ∧
+    attributed w.reg (w.lease a) cid a =
+      ((((owner w.reg (.cid cid)).orElse fun _ => owner w.reg (.ip a)).orElse fun _ =>
+        (mostSpecific w.reg a).map (·.2)).orElse fun _ => (w.lease a).bind fun m => owner w.reg (.mac m)) := by
+  refine ⟨resolve_attributed h cid a hlease, ?_⟩
+  unfold attributed byAddress
+  cases owner w.reg (.cid cid) <;> cases owner w.reg (.ip a) <;> cases (mostSpecific w.reg a) <;> rfl
+
+/-- "Most specific": the chosen CIDR belongs to its owner and contains the
+address, and no CIDR of any client containing the address is longer; among
+equally long ones it has the smallest address. -/
+theorem C04_most_specific {reg : Registry} {a : IP} {p : Prefix} {c : Client}
+    (h : mostSpecific reg a = some (p, c)) :
+    c ∈ reg ∧ p ∈ c.subnets ∧ inCIDR p a = true ∧
+    ∀ d ∈ reg, ∀ q ∈ d.subnets, inCIDR q a = true →
+      q.bits ≤ p.bits ∧ (q.bits = p.bits → p.addr ≤ q.addr) := by
+  obtain ⟨hm, hbest⟩ := mostSpecific_some h
+  obtain ⟨hc, hp, hin⟩ := mem_containing.mp hm
+  refine ⟨hc, hp, hin, ?_⟩
+  intro d hd q hq hqin
+  have := hbest (q, d) (mem_containing.mpr ⟨hd, hq, hqin⟩)
+  have hn : ¬ (q.bits > p.bits ∨ (q.bits = p.bits ∧ q.addr < p.addr)) := by
+    rw [← moreSpecific_iff]; simpa using this
+  omega
+
+/-- A request that matches nothing is attributed to nobody and its settings
+stay the global ones. -/
+theorem C04_unmatched_untouched {s : Storage} (cid : Bytes) (a : IP) (g : Settings)
+    (h : s.resolve cid a = .none) : s.applyClientFiltering cid a g = some g := by
+  unfold Storage.applyClientFiltering
+  rw [h]
+
+/-! ### settings -/
+
+/-- The client's own filtering / safe-search / safe-browsing / parental
+settings are applied exactly when it uses its own settings, its own blocked
+services exactly when it uses its own blocked services; otherwise the global
+values stay. -/
+theorem C04_settings_opt_out (c : Client) (g : Settings) :
+    (c.apply g).filteringEnabled = (if c.useOwnSettings then c.filteringEnabled else g.filteringEnabled) ∧
+    (c.apply g).safeSearchEnabled = (if c.useOwnSettings then c.safeSearchEnabled else g.safeSearchEnabled) ∧
+    (c.apply g).safeBrowsingEnabled = (if c.useOwnSettings then c.safeBrowsingEnabled else g.safeBrowsingEnabled) ∧
+    (c.apply g).parentalEnabled = (if c.useOwnSettings then c.parentalEnabled else g.parentalEnabled) ∧
+    (c.apply g).svc = (if c.useOwnBlockedServices then c.svc else g.svc) ∧
+    (c.apply g).clientName = c.name := by
+  rw [Client.apply_eq]
+  simp [effective]
+
+/-! ### the sorted CIDR map -/
+
+/-- `subnetCompare` is a strict total order: longer prefixes first, then IPv4
+before IPv6, then the smaller address; `0` exactly on equal prefixes. -/
+theorem C04_subnetCompare_total_order (x y z : Prefix) :
+    (subnetCompare x y = .eq ↔ x = y) ∧
+    (subnetCompare x y = .lt → subnetCompare y z = .lt → subnetCompare x z = .lt) ∧
+    (subnetCompare x y = .lt → subnetCompare y x ≠ .lt) ∧
+    (x ≠ y → subnetCompare x y = .lt ∨ subnetCompare y x = .lt) := by
+  refine ⟨subnetCompare_eq, ?_, ?_, ?_⟩
+  · intro h1 h2
+    exact subnetCompare_lt.mpr (plt_trans (subnetCompare_lt.mp h1) (subnetCompare_lt.mp h2))
+  · intro h1 h2
+    exact plt_asymm (subnetCompare_lt.mp h1) (subnetCompare_lt.mp h2)
+  · intro hne
+    rcases plt_trichotomy x y with h | h | h
+    · exact absurd h hne
+    · exact Or.inl (subnetCompare_lt.mpr h)
+    · exact Or.inr (subnetCompare_lt.mpr h)
+
+/-- Go's binary search over a sorted key list returns the number of keys
+before the target, and reports "found" exactly when the target is a key. -/
+theorem C04_bsearch_lower_bound (keys : List Prefix) (hs : Sorted keys) (t : Prefix) :
+    (bsearch keys t).1 = (keys.takeWhile (fun k => subnetCompare k t == .lt)).length ∧
+    ((bsearch keys t).2 = true ↔ t ∈ keys) :=
+  ⟨bsearch_fst hs t, bsearch_snd hs t⟩
+
+/-- After every history the key list of the CIDR map is sorted (hence
+duplicate-free) and is exactly the set of CIDRs that have a value; `Del` never
+hit `slices.Delete` out of range on the way (that would be `panic`, excluded by
+`C04_no_panic`). -/
+theorem C04_sortedmap_sound (ops : List Op) :
+    let m := (run Storage.empty ops).index.subnetToUID
+    Sorted m.keys ∧ m.keys.Nodup ∧ ∀ k, k ∈ m.keys ↔ (m.vals k).isSome = true := by
+  intro m
+  have h := (run_inv (s := Storage.empty) Inv.empty ops).sm
+  exact ⟨h.sorted, h.sorted.nodup, h.dom⟩
+
+/-! ### non-vacuity -/
+
+section examples
+
+private def mk (uid : Nat) (name : Bytes) (ips : List IP) (subs : List Prefix) (cids : List Bytes)
+    (macs : List MAC) (own : Bool) : Client :=
+  { uid := uid, name := name, ips := ips, subnets := subs, macs := macs, cids := cids,
+    invalidConf := false, useOwnSettings := own, filteringEnabled := false, safeSearchEnabled := true,
+    safeBrowsingEnabled := false, parentalEnabled := true, useOwnBlockedServices := own, svc := uid,
+    ver := uid }
+
+/-- alice: 10.0.0.1 and 10.0.0.0/8; bob: 10.0.0.0/24 and ClientID "tv"; carol: a MAC. -/
+private def alice := mk 1 [97] [.v4 0x0a000001] [⟨false, 0x0a000000, 8⟩] [] [] true
+private def bob := mk 2 [98] [] [⟨false, 0x0a000000, 24⟩] [[116, 118]] [] false
+private def carol := mk 3 [99] [] [] [] [[2, 0, 0, 0, 0, 1]] true
+private def s3 := run Storage.empty [.add alice, .add bob, .add carol, .dhcpSet (.v4 0xc0a80101) [2, 0, 0, 0, 0, 1]]
+
+/-- Precedence on a concrete registry: exact address beats CIDRs, the longer
+CIDR beats the shorter, the ClientID beats the address, the DHCP lease's MAC
+comes last; clashing operations are rejected with the registry unchanged; an
+update that drops an identifier leaves no stale entry. -/
+example :
+    s3.resolve [] (.v4 0x0a000001) = .client alice ∧
+    s3.resolve [] (.v4 0x0a000007) = .client bob ∧
+    s3.resolve [] (.v4 0x0a010203) = .client alice ∧
+    s3.resolve [116, 118] (.v4 0x0a000001) = .client bob ∧
+    s3.resolve [] (.v4 0xc0a80101) = .client carol ∧
+    s3.resolve [] (.v4 0x0b000001) = .none ∧
+    (step s3 (.add (mk 4 [100] [] [⟨false, 0x0a000000, 24⟩] [] [] true))).2 = .err .subnetClash ∧
+    (step s3 (.update [98] (mk 9 [97] [] [⟨false, 0x0a000000, 16⟩] [] [] true))).2 = .err .nameClash ∧
+    (step s3 (.update [98] (mk 9 [98] [] [⟨false, 0x0a000000, 16⟩] [] [] true))).2 = .ok ∧
+    (step s3 (.update [98] (mk 9 [98] [] [⟨false, 0x0a000000, 16⟩] [] [] true))).1.resolve [116, 118] (.v4 0x0b000001)
+      = .none ∧
+    (step s3 (.update [98] (mk 9 [98] [] [⟨false, 0x0a000000, 16⟩] [] [] true))).1.resolve [] (.v4 0x0a000007)
+      = .client { mk 9 [98] [] [⟨false, 0x0a000000, 16⟩] [] [] true with uid := 2 } := by
+  decide +kernel
+
+end examples
 
 end AGH.C04
